@@ -209,11 +209,13 @@ class _CommonFile:
             # NOTE: if multiple entries for a key, we use the first one,
             #       which seems to match htpasswd source
             if key in records:
+                # NOTE: first record wins (as for Apache itself); the duplicate line is dropped --
+                #       keeping it as untouched text would write the user out twice, and would
+                #       bring a stale record back to life once the first one is deleted.
                 logging.warning(
                     "username occurs multiple times in source file: %r",
                     key,
                 )
-                skipped += line
                 continue
 
             # flush buffer of skipped whitespace lines
